@@ -200,10 +200,17 @@ def judge(rec):
     for a in ad_log:
         if a["ev"] == "update":
             n_upd[(a["call"], a["adapter"])] = n_upd.get((a["call"], a["adapter"]), 0) + 1
+    # the adapters of a stage are the same for every chain: what any chain's call of that stage was handed
+    stage_adapters = {}
     for idx, c in enumerate(calls):
-        if c["adapters"] and c["outcome"] == "ok":
-            for tk, labels in c["adapters"].items():
-                for label in labels:
+        for tk, labels in (c["adapters"] or {}).items():
+            for label in labels:
+                stage_adapters.setdefault(stage_of_call[idx], {}).setdefault(tk, set()).add(label)
+    for idx, c in enumerate(calls):
+        expected = stage_adapters.get(stage_of_call[idx])
+        if expected and c["outcome"] == "ok":
+            for tk, labels in sorted(expected.items()):
+                for label in sorted(labels):
                     if n_upd.get((idx, label), 0) != c["n_iter"]:
                         v.append(violation("adapter-not-active", f"{PROP} adapter-not-active",
                                            f"adapter {label} (transition {tk}) was updated {n_upd.get((idx, label), 0)} times in stage {stage_of_call[idx]} of chain {c['chain']} which has {c['n_iter']} iterations"))
